@@ -136,6 +136,32 @@ def confObjsPdu (k : PduKind) (p : Json) : H Roots := do
   let pdu ← buildPdu k p r
   pure (r ++ [("pdu", pdu)])
 
+/-- optional octet string `k` of the scenario: present iff `k_some = 1`, then of length `k` -/
+def optOf (p : Json) (k : String) : Option Nat := if pn p (k ++ "_some") = 1 then some (pn p k) else none
+
+def mkUslpHdr (p : Json) : H Addr :=
+  if pn p "trunc" = 1 then newUslpTruncHeader (pn p "scid") (pn p "vcid") (pn p "mapid") (pn p "srcdest")
+  else newUslpHeader (pn p "flen") (pn p "vcflen") (pn p "ocfflag") (pn p "scid") (pn p "vcid") (pn p "mapid") (pn p "srcdest")
+
+def mkTfdf (p : Json) : H Addr := newTfdf (pn p "rules") (pn p "upid") (optOf p "fhp") (pn p "tfdzlen")
+
+def mkFrame (p : Json) (hdr tfdf : Addr) : H Addr := newTransferFrame hdr tfdf (optOf p "iz") (optOf p "ocf") (optOf p "fecf")
+
+/-- caller's header, data field, and the frame built from them -/
+def hdrTfdfFrame (p : Json) : H Roots := do
+  let hdr ← mkUslpHdr p
+  let tfdf ← mkTfdf p
+  let fr ← mkFrame p hdr tfdf
+  pure [("hdr", hdr), ("tfdf", tfdf), ("fr", fr)]
+
+def decodeFrame (p : Json) : H Addr :=
+  unpackFrame (pn p "trunc" = 1) [pn p "flen", pn p "vcflen", pn p "ocfflag", pn p "scid", pn p "vcid", pn p "mapid", pn p "srcdest"]
+    [pn p "rules", pn p "upid", 0, pn p "tfdzlen", 1 + pn p "tfdzlen"] [optEnc (optOf p "iz"), optEnc (optOf p "ocf"), optEnc (optOf p "fecf")]
+
+/-- the service-1 telemetry packet a report is decoded from (source data: request ID, and a step octet for subservice 5) -/
+def mkS1Tm (p : Json) : H Addr :=
+  newPusTm 1 (pn p "sub") (pn p "apid") (pn p "count") (pn p "tslen") (if pn p "sub" = 5 then 5 else 4)
+
 def tcOpOf (p : Json) : TcOp :=
   match pn p "set" with
   | 0 => .seqCount (pn p "v")
@@ -318,6 +344,62 @@ def scenario (name : String) (p : Json) : Option Scn :=
           | .metadata => pn p "opts" = 1
           | _ => pn p "fault" = 1
         pure [("dec", ← unpackPdu k (pn p "idw") (pn p "seqw") withObj [])] }
+  | "uslp_frame_ctor" => some {
+      setup := do pure [("hdr", ← mkUslpHdr p), ("tfdf", ← mkTfdf p)]
+      act := fun r => do pure [("fr", ← mkFrame p (← root r "hdr") (← root r "tfdf"))] }
+  | "uslp_set_frame_len" => some {
+      setup := hdrTfdfFrame p
+      act := fun r => do
+        setFrameLenInHeader (← root r "fr")
+        pure [] }
+  | "uslp_frame_unpack" => some {
+      setup := do
+        let r ← hdrTfdfFrame p
+        setFrameLenInHeader (← root r "fr")      -- the octets to decode come from the frame with its length set
+        let dec ← decodeFrame p
+        pure (r ++ [("dec", dec)])
+      act := fun _ => do pure [("dec2", ← decodeFrame p)] }
+  | "tm_from_composite" => some {
+      setup := do
+        let hdr ← mkHdr p
+        let sec ← new ⟨.tmSec, [], [pn p "service", pn p "subservice", 0, 0, 0, pn p "tslen"]⟩
+        pure [("hdr", hdr), ("sec", sec)]
+      act := fun r => do pure [("tm", ← tmFromCompositeFields (← root r "hdr") (← root r "sec") (pn p "dlen"))] }
+  | "service1_from_tm" => some {
+      setup := do pure [("tm", ← mkS1Tm p)]
+      act := fun r => do pure [("rep", ← service1FromTm (← root r "tm"))] }
+  | "service1_from_tm_twice" => some {
+      setup := do
+        let tm ← mkS1Tm p
+        let rep ← service1FromTm tm
+        pure [("tm", tm), ("rep", rep)]
+      act := fun r => do pure [("rep2", ← service1FromTm (← root r "tm"))] }
+  | "service1_default_twice" => some {
+      setup := do pure [("a", ← newService1TmDefault (pn p "apid") (pn p "sub") (pn p "tslen"))]
+      act := fun _ => do pure [("b", ← newService1TmDefault (pn p "apid2") (pn p "sub") (pn p "tslen"))] }
+  | "pdu_flag_set" => k?.map fun k => {
+      setup := confObjsPdu k p
+      act := fun r => do
+        let pdu ← root r "pdu"
+        match pn p "set" with
+        | 0 => do
+          pduFlagSet k pdu (.fileFlag (pn p "v"))
+          pure []
+        | 1 => do
+          pduFlagSet k pdu (.hdrScalar (pn p "attr") (pn p "v"))
+          pure []
+        | 2 => do
+          let a ← newByteField (pn p "w2") (pn p "v")
+          let b ← newByteField (pn p "w2") (pn p "v" + 1)
+          pduFlagSet k pdu (.entityIds a b)
+          pure [("arg", a), ("arg2", b)]
+        | 3 => do
+          let q ← newByteField (pn p "w2") (pn p "v")
+          pduFlagSet k pdu (.seqNum q)
+          pure [("arg", q)]
+        | _ => do
+          pduFlagSet k pdu (.fieldValue (pn p "attr") (pn p "v"))
+          pure [] }
   | _ => none
 
 /-! ## the alias graph -/
